@@ -6,10 +6,12 @@
 void *malloc(size_t); void free(void *);
 void _ZSt20__throw_length_errorPKc(uint8_t *m);
 void _ZSt24__throw_out_of_range_fmtPKcz(uint8_t *m, ...);
-struct vstr { uint8_t *p; uint64_t n; union { uint8_t buf[16]; uint64_t cap; } u; };
+struct vstr { uint8_t *p; uint64_t n; struct { uint8_t buf[16]; } u; };   /* SSO union as 16 plain bytes (as tools/ir2c.py declares it); the capacity overlays bytes 0..7 */
+static uint64_t vs_getcap(struct vstr *s) { uint64_t c = 0; for (int i = 7; i >= 0; i--) c = (c << 8) | s->u.buf[i]; return c; }
+static void vs_setcap(struct vstr *s, uint64_t c) { for (int i = 0; i < 8; i++) s->u.buf[i] = (uint8_t)(c >> (8 * i)); }
 #define VSTR_MAX 0x3fffffffffffffffULL
 static int vs_local(struct vstr *s) { return s->p == s->u.buf; }
-static uint64_t vs_cap(struct vstr *s) { return vs_local(s) ? 15 : s->u.cap; }
+static uint64_t vs_cap(struct vstr *s) { return vs_local(s) ? 15 : vs_getcap(s); }
 static void vs_dispose(struct vstr *s) { if (!vs_local(s)) free(s->p); }
 static void vs_setlen(struct vstr *s, uint64_t n) { s->n = n; s->p[n] = 0; }
 static void vs_copy(uint8_t *d, const uint8_t *s, uint64_t n) { for (uint64_t i = 0; i < n; i++) d[i] = s[i]; }
@@ -46,7 +48,7 @@ void _ZNSt7__cxx1112basic_stringIcSt11char_traitsIcESaIcEE9_M_mutateEmmPKcm(stru
   if (str && len2) vs_copy(r + pos, str, len2);
   if (how_much) vs_copy(r + pos + len2, s->p + pos + len1, how_much);
   vs_dispose(s);
-  s->p = r; s->u.cap = new_cap;
+  s->p = r; vs_setcap(s, new_cap);
 }
 /* basic_string& _M_append(const char* s, size_type n) */
 struct vstr *_ZNSt7__cxx1112basic_stringIcSt11char_traitsIcESaIcEE9_M_appendEPKcm(struct vstr *s, uint8_t *str, uint64_t n) {
@@ -63,7 +65,7 @@ void _ZNSt7__cxx1112basic_stringIcSt11char_traitsIcESaIcEE9_M_assignERKS4_(struc
   if (rsize > cap) {
     uint64_t nc = rsize;
     uint8_t *t = _ZNSt7__cxx1112basic_stringIcSt11char_traitsIcESaIcEE9_M_createERmm(s, &nc, cap);
-    vs_dispose(s); s->p = t; s->u.cap = nc;
+    vs_dispose(s); s->p = t; vs_setcap(s, nc);
   }
   if (rsize) vs_copy(s->p, o->p, rsize);
   vs_setlen(s, rsize);
@@ -106,7 +108,7 @@ void _ZNSt7__cxx1112basic_stringIcSt11char_traitsIcESaIcEE8_M_eraseEmm(struct vs
 }
 /* void _M_construct(size_type n, char c) */
 void _ZNSt7__cxx1112basic_stringIcSt11char_traitsIcESaIcEE12_M_constructEmc(struct vstr *s, uint64_t n, uint8_t c) {
-  if (n > 15) { uint64_t cap = n; s->p = _ZNSt7__cxx1112basic_stringIcSt11char_traitsIcESaIcEE9_M_createERmm(s, &cap, 0); s->u.cap = cap; }
+  if (n > 15) { uint64_t cap = n; s->p = _ZNSt7__cxx1112basic_stringIcSt11char_traitsIcESaIcEE9_M_createERmm(s, &cap, 0); vs_setcap(s, cap); }
   for (uint64_t i = 0; i < n; i++) s->p[i] = c;
   vs_setlen(s, n);
 }
@@ -116,7 +118,7 @@ void _ZNSt7__cxx1112basic_stringIcSt11char_traitsIcESaIcEE7reserveEm(struct vstr
   if (res <= cap) return;
   uint8_t *t = _ZNSt7__cxx1112basic_stringIcSt11char_traitsIcESaIcEE9_M_createERmm(s, &res, cap);
   vs_copy(t, s->p, s->n + 1);
-  vs_dispose(s); s->p = t; s->u.cap = res;
+  vs_dispose(s); s->p = t; vs_setcap(s, res);
 }
 /* ~basic_string() (out-of-line copy used when not inlined) */
 void _ZNSt7__cxx1112basic_stringIcSt11char_traitsIcESaIcEED2Ev(struct vstr *s) { vs_dispose(s); }
@@ -172,7 +174,7 @@ void _ZNSt7__cxx1112basic_stringIcSt11char_traitsIcESaIcEE4swapERS4_(struct vstr
 /* basic_string(const basic_string&) / basic_string(const char*, const allocator&) when emitted out of line */
 void _ZNSt7__cxx1112basic_stringIcSt11char_traitsIcESaIcEEC2ERKS4_(struct vstr *s, struct vstr *o) {
   s->p = s->u.buf;
-  if (o->n > 15) { uint64_t cap = o->n; s->p = _ZNSt7__cxx1112basic_stringIcSt11char_traitsIcESaIcEE9_M_createERmm(s, &cap, 0); s->u.cap = cap; }
+  if (o->n > 15) { uint64_t cap = o->n; s->p = _ZNSt7__cxx1112basic_stringIcSt11char_traitsIcESaIcEE9_M_createERmm(s, &cap, 0); vs_setcap(s, cap); }
   vs_copy(s->p, o->p, o->n);
   vs_setlen(s, o->n);
 }
